@@ -160,10 +160,47 @@ def gen_case(rng, cid):
     return Case(cid, ops, tags=(profile, f"off={off}"))
 
 
+LAST = []
+
+
 def gen(ctx, n):
     cases = [gen_case(ctx.rng, f"g{ctx.seed}-{i}") for i in range(n)]
     ctx.cov["generator_distribution"] = dict(GEN_STATS)
+    LAST[:] = cases
     return cases
+
+
+def measure(ctx, eng):
+    """distribution of the inbound decisions of the last generated batch (driver mode `explain`): which metric
+    types were violated, and how often the BBR capacity term was the deciding one"""
+    from vlib import core
+    if not LAST:
+        return
+    out, err = core.run_lean(PROP, "explain", core.cases_text(LAST))
+    if out is None:
+        ctx.cov["decision_distribution"] = "unavailable: " + str(err)
+        return
+    d = collections.Counter()
+    for l in out:
+        if not l.startswith("entry ") or " ; viol=" not in l:
+            continue
+        op, _, r = l.partition(" => ")
+        res, viol, bbr, conc = [x.strip() for x in r.split(";")]
+        ms = sorted(set(viol[5:].split(","))) if viol[5:] else []
+        d["inbound decisions"] += 1
+        d["violated metric types: " + ("none" if not ms else "+".join(ms))] += 1
+        d["violated rules per decision: " + str(min(len(viol[5:].split(",")) if viol[5:] else 0, 3)) + ("+" if viol[5:].count(",") >= 2 else "")] += 1
+        if bbr != "bbr=na":
+            d[f"BBR armed, capacity {bbr[4:]}, {res}"] += 1
+            if conc in ("conc=1", "conc=2", "conc=0"):
+                d[f"BBR armed at {conc}"] += 1
+    ctx.cov["decision_distribution"] = dict(d)
+
+
+def run(ctx):
+    import sys
+    from vlib import std
+    return std.run(ctx, sys.modules[__name__], extra=measure)
 
 
 def corpus():
